@@ -149,6 +149,12 @@ async def process_resource_event(
     return None
 
 
+def _revisable(fn: patches.PatchFn) -> patches.PatchFn:
+    """Mark a transformation as decided from the object's state, i.e. to be re-decided if carried over."""
+    setattr(fn, 'revisable', True)
+    return fn
+
+
 class _Causes(NamedTuple):
     watching_cause: causes.WatchingCause | None
     spawning_cause: causes.SpawningCause | None
@@ -235,6 +241,9 @@ async def process_resource_causes(
         operator_paused: aiotoggles.ToggleSet | None,  # None for tests
         consistency_time: float | None,
 ) -> tuple[Collection[float], bool]:
+    # The finalizer decisions carried over from a conflicted cycle (HTTP 422) were made for an older
+    # state of the object: make them anew for the fresh state below instead of replaying them blindly.
+    patch.fns[:] = [fn for fn in patch.fns if not getattr(fn, 'revisable', False)]
     patch_initially_empty = not patch  # before we add new things in low-level handlers
 
     finalizer = settings.persistence.finalizer
@@ -297,12 +306,12 @@ async def process_resource_causes(
 
     if deletion_must_be_blocked and not deletion_is_blocked and not deletion_is_ongoing:
         local_logger.debug("Adding the finalizer, thus preventing the actual deletion.")
-        patch.fns.append(functools.partial(finalizers.block_deletion, finalizer=finalizer))
+        patch.fns.append(_revisable(functools.partial(finalizers.block_deletion, finalizer=finalizer)))
         changing_cause = None  # prevent further high-level processing this time
 
     if not deletion_must_be_blocked and deletion_is_blocked:
         local_logger.debug("Removing the finalizer, as there are no handlers requiring it.")
-        patch.fns.append(functools.partial(finalizers.allow_deletion, finalizer=finalizer))
+        patch.fns.append(_revisable(functools.partial(finalizers.allow_deletion, finalizer=finalizer)))
         changing_cause = None  # prevent further high-level processing this time
 
     # If the state is inconsistent (yet), wait for new events in a hope that they bring consistency.
